@@ -138,6 +138,9 @@ def check_value(W, rec, key, val, jar=False):
                 resp = Response("ok")
                 if request.path == "/set":
                     resp.set_cookie(key, val)
+                if request.path == "/change":
+                    resp = Response("moved", status=302, headers={"Location": "/seen"})
+                    resp.set_cookie(key, val + "#2")
                 return resp
 
             c = Client(app)
@@ -149,6 +152,13 @@ def check_value(W, rec, key, val, jar=False):
             c.get("/")
             if seen["cookies"].get(key) != val:
                 rec.violation("C13/client-jar-roundtrip-differs", f"server saw {seen['cookies']!r}; {case}", case, monitor="roundtrip")
+                return
+            # history: the cookie is replaced by a response that also redirects; the request that follows the redirect
+            # (built from the previous one) carries what the jar holds now
+            c.get("/change", follow_redirects=True)
+            rec.observe("client_jar_redirect_roundtrips")
+            if seen["cookies"].get(key) != val + "#2":
+                rec.violation("C13/client-jar-stale-after-redirect", f"after Set-Cookie + redirect the server saw {seen['cookies']!r}, the jar holds {val + '#2'!r}; {case}", case, monitor="roundtrip")
 
 
 PATHS = [None, "/", "/a b", "/a;b", "/é", "/x,y", '/q"r']
@@ -290,11 +300,12 @@ def run(shard, rec, rng):
         jar = cp < 0x100 or cp % 997 == 0
         check_value(W, rec, "k", c, jar=jar)
         check_value(W, rec, "k", "a" + c + "b", jar=False)
-    keys = ["k", "sess-id", "a.b", "X_1", "!#$%&'*+-.^_`|~"]
+    # token keys, including ones spelled like cookie attributes (they are ordinary cookie names)
+    keys = ["k", "sess-id", "a.b", "X_1", "!#$%&'*+-.^_`|~", "domain", "Path", "max-age", "expires", "secure", "HttpOnly", "samesite", "partitioned"]
     for i in range(cfg["rand"]):
         rec.observe("random_values")
         v = rand_value(rng)
-        check_value(W, rec, rng.choice(keys), v, jar=(i % 20 == 0))
+        check_value(W, rec, rng.choice(keys), v, jar=(i % 12 == 0))
         if len(rec.samples) < 3:
             rec.sample({"value": v, "header": W["http"].dump_cookie("k", v, max_size=0)})
     n = 0
